@@ -95,6 +95,28 @@ def run_bug_cfgs(run, specdir, module, names, workers=2):
     run.cov.setdefault("seeded_bugs_caught", {}).update({"%s/%s" % (module, k): v for k, v in res.items()})
 
 
+def in_parallel(*fns):
+    """run the given thunks in threads; re-raise the first Inconclusive"""
+    errs = []
+
+    def wrap(fn):
+        def go():
+            try:
+                fn()
+            except vlib.Inconclusive as e:
+                errs.append(e)
+            except Exception as e:          # a programming error must not be swallowed by the thread
+                errs.append(vlib.Inconclusive("internal error in parallel phase: %r" % (e,)))
+        return go
+    ths = [threading.Thread(target=wrap(fn)) for fn in fns]
+    for t in ths:
+        t.start()
+    for t in ths:
+        t.join()
+    if errs:
+        raise errs[0]
+
+
 def sim_scripts(run, specdir, module, cfgname, cfgbytes, walks, depth, seed, label):
     """TLC simulation as input generator: returns the list of printed JSON behaviours (deduplicated)"""
     r = vlib.tlc(specdir, module, cfgname, workers=1, timeout=1500, simulate="num=%d" % walks, depth=depth, seed=seed,
@@ -145,6 +167,45 @@ def segment_of(path, line):
         return None
 
 
+def shape_of(path, line):
+    """Diagnostic classification of a rejected step (the verdict is TLC's; the shape only names the situation so that a
+    reported finding can be registered in KNOWN_FINDINGS.jsonl).  Looks at the segment of the rejected line: writer
+    configuration, transforms in force, and whether the iterator had been re-bound (SetBounds) since it was opened."""
+    cfg, ssuf, ev = "", 0, None
+    rebound = {}
+    with open(path) as f:
+        for i, l in enumerate(f, 1):
+            if i > line:
+                break
+            if '"op":"table"' in l or '"op":"levels"' in l:
+                try:
+                    cfg = json.loads(l).get("cfg", "")
+                except Exception:
+                    cfg = ""
+                ssuf, rebound = 0, {}
+            elif '"op":"virt"' in l:
+                ssuf, rebound = json.loads(l).get("ssuf", 0), {}
+            elif '"op":"open"' in l:
+                rebound.pop(json.loads(l).get("h"), None)
+            elif '"op":"setb"' in l:
+                e = json.loads(l)
+                rebound[e.get("h")] = (e.get("lo"), e.get("hi"))
+            if i == line:
+                try:
+                    ev = json.loads(l)
+                except Exception:
+                    ev = None
+    if not isinstance(ev, dict) or ev.get("op") != "it":
+        return None
+    res, b = ev.get("res", []), rebound.get(ev.get("h"))
+    rowblk = any(("(Pebble,v%d)" % v) in cfg for v in (1, 2, 3, 4))
+    if (b and ssuf > 0 and rowblk and ev.get("o") in ("prev", "seeklt", "last") and len(res) == 4 and 0 <= res[0] < b[0]):
+        return "rowblk-synthetic-suffix-rebound-iterator-returns-key-below-lower-bound"
+    if b:
+        return "rebound-iterator"
+    return None
+
+
 def validate_files(run, specdir, module, cfgname, cfgbytes, files, vocab, label, batch_lines=60000, sig_fields=("op", "o", "t")):
     """validate trace files, many per TLC run; on rejection record a violation and continue after that file"""
     wd = vlib.scratch("verif.sstt.")
@@ -163,7 +224,7 @@ def validate_files(run, specdir, module, cfgname, cfgbytes, files, vocab, label,
             vlib.concat_traces(batch, allp)
             v = vlib.validate_trace(specdir, module, cfgname, allp, timeout=3000, extra_files={cfgname: cfgbytes}, heap="8g")
             if ooc_count(v.tlc.out):
-                if run.violations:
+                if run.violations or run.known:
                     # scripts are generated from the real results of a leader configuration: once a real result has been
                     # rejected, the scripts derived from it may leave the caller contract when replayed elsewhere. The
                     # violation stands on the rejected real step; the remaining traces are not evaluated.
@@ -199,6 +260,9 @@ def validate_files(run, specdir, module, cfgname, cfgbytes, files, vocab, label,
             for k in sig_fields:
                 if k in ev:
                     sig[k] = ev[k]
+            shp = shape_of(f, line)
+            if shp:
+                sig["shape"] = shp
             run.violation(sig, "%s: step rejected by %s at line %d: %s   [segment: %s]"
                           % (os.path.basename(f), module, line, json.dumps(ev)[:400], json.dumps(seg)[:500]),
                           replay_obj={"trace": keep, "line": line, "segment": seg,
@@ -268,7 +332,7 @@ def run_go(binp, test, env, timeout=3000):
 
 # ---------------------------------------------------------------------------------------------
 # C25 / C27: sstables
-PT_BUGS = ["UpperInclusive", "LowerExclusive", "SeekLTInclusive", "PrefixNoCheck", "NextPrefixOffByOne"]
+PT_BUGS = ["UpperInclusive", "LowerExclusive", "SeekLTInclusive", "PrefixNoCheck", "NextPrefixOffByOne", "ReuseUpperInclusive"]
 GEN_P, GEN_S = 3, 2      # universe of the TLC-generated scripts
 DRV_P, DRV_S = 4, 3      # universe of the driver-enumerated scripts
 
@@ -278,12 +342,17 @@ def design_points(run):
     vlib.sany(SPECDIR, "InternalIterTrace")
     quick = run.tier == "quick"
     consts = dict(P=2, S=1, Bug="none", MaxN=(2 if quick else 3), Seqs=2, Kinds=({1} if quick else {0, 1}), MaxOps=1000000, Emit=False)
-    with Phase(run, "design"):
-        r = design_run(SPECDIR, "InternalIterGen", cfg_text(consts, invariants=["Inv"], view="View"), workers=WORKERS, timeout=2400, heap="10g")
+    box = {}
+
+    def design():
+        box["r"] = design_run(SPECDIR, "InternalIterGen", cfg_text(consts, invariants=["Inv"], view="View"),
+                              workers=max(2, WORKERS - 4), timeout=2400, heap="10g")
+    # the exhaustive run and the seeded-bug self tests are independent TLC runs: side by side
+    with Phase(run, "design+seeded_bugs"):
+        in_parallel(design, lambda: run_bug_cfgs(run, SPECDIR, "InternalIterGen", PT_BUGS, workers=1 if quick else 2))
     run.add_design("InternalIterGen exhaustive (P=2,S=1: 4 user keys; seqnums 1..2; kinds %s; <=%d entries; every bound pair; "
-                   "every in-contract call sequence)" % (sorted(consts["Kinds"]), consts["MaxN"]), r)
-    with Phase(run, "seeded_bugs"):
-        run_bug_cfgs(run, SPECDIR, "InternalIterGen", PT_BUGS)
+                   "every in-contract call sequence incl. SetBounds to every bound pair on the same iterator)"
+                   % (sorted(consts["Kinds"]), consts["MaxN"]), box["r"])
 
 
 def gen_point_scripts(run, walks, path):
@@ -390,6 +459,10 @@ def run_c25(run):
         "positioning calls are issued only inside the documented caller contract of base.InternalIterator (TLC counts out-of-contract "
         "steps; any makes the run inconclusive); Prev after an exhausted NextPrefix is treated as outside the contract",
         "in prefix-iteration mode a call that leaves the prefix may return nil or the next key (outcome set); inside the prefix the result is exact",
+        "iterator reuse: SetBounds on the same real iterator (windows moving forward, backward and arbitrarily; scans run to exhaustion or "
+        "abandoned early; seeks inside the block left loaded) is modelled as a new iterator with the new bounds: whatever the implementation "
+        "keeps across SetBounds must not be observable; after SetBounds only absolute positioning is in contract and TrySeekUsingNext may not "
+        "refer to a seek made under the previous bounds",
         "the options matrix is enumerated by the driver (the spec is option-free): " + str(info.get("configs")) + " configurations in this tier",
         "TLC's verdict on each step is authoritative; the Go driver only executes and records",
     ]
@@ -473,7 +546,7 @@ def run_c27(run):
 
 # ---------------------------------------------------------------------------------------------
 # C33: merged iteration over levels
-MG_BUGS = ["Merge_RangeDelLE", "Merge_NoLevelInvariant", "Merge_SnapshotIgnored"]
+MG_BUGS = ["Merge_RangeDelLE", "Merge_NoLevelInvariant", "Merge_SnapshotIgnored", "Merge_CoversNewest"]
 MG_P, MG_S = 3, 1
 MD_P, MD_S = 4, 2
 
@@ -482,26 +555,46 @@ def run_c33(run):
     quick = run.tier == "quick"
     vlib.sany(SPECDIR, "MergeGen")
     vlib.sany(SPECDIR, "InternalIterTrace")
-    consts = dict(P=2, S=1, Bug="none", NL=(2 if quick else 3), MaxW=2, Kinds={1}, MaxOps=0, Emit=False)
-    with Phase(run, "design"):
-        r = design_run(SPECDIR, "MergeGen", cfg_text(consts, invariants=["Inv"], view="View"), workers=WORKERS, timeout=2400, heap="10g")
-    run.add_design("MergeGen exhaustive (4 user keys, %d levels, <=%d writes newest-first incl. shared seqnums: points and range tombstones, "
-                   "file split none/third/middle per level, snapshots 2 and latest)" % (consts["NL"], consts["MaxW"]), r)
-    with Phase(run, "seeded_bugs"):
-        run_bug_cfgs(run, SPECDIR, "MergeGen", MG_BUGS)
-        run_bug_cfgs(run, SPECDIR, "InternalIterGen", ["UpperInclusive", "SeekLTInclusive"])
+    # two scopes: many levels x 2 writes, and few levels x 3 writes (one level holding two overlapping tombstones and a
+    # point between them in sequence number needs 3 writes); snapshots 2, newest-write and latest
+    # (P, S, levels, writes)
+    scopes = [(2, 1, 2, 2), (3, 0, 1, 3)] if quick else [(2, 1, 3, 2), (2, 1, 2, 3)]
+    res = {}
+
+    def one(pp, ss, nlv, mw):
+        c = dict(P=pp, S=ss, Bug="none", NL=nlv, MaxW=mw, Kinds={1}, MaxOps=0, Emit=False)
+        res[(pp, ss, nlv, mw)] = design_run(SPECDIR, "MergeGen", cfg_text(c, invariants=["Inv"], view="View"),
+                                    workers=max(2, WORKERS // 2 - 2), timeout=2400, heap="6g")
+    with Phase(run, "design+seeded_bugs"):
+        in_parallel(*([(lambda sc=sc: one(*sc)) for sc in scopes] +
+                      [lambda: run_bug_cfgs(run, SPECDIR, "MergeGen", MG_BUGS, workers=1 if quick else 2),
+                       lambda: run_bug_cfgs(run, SPECDIR, "InternalIterGen", ["UpperInclusive", "ReuseUpperInclusive"], workers=1 if quick else 2)]))
+    for (pp, ss, nlv, mw) in scopes:
+        run.add_design("MergeGen exhaustive (%d user keys, %d level(s), <=%d writes newest-first incl. shared seqnums: points and range "
+                       "tombstones, file split none/third/middle per level, read seqnums 2, newest write and latest)"
+                       % (pp * (ss + 1), nlv, mw), res[(pp, ss, nlv, mw)])
     binp = vlib.build_driver(".", name="root" + DRVSUFFIX)
     tdir = vlib.scratch("verif.sst33.")
     sf = os.path.join(tdir, "scripts.jsonl")
-    gc = dict(P=MG_P, S=MG_S, Bug="none", NL=3, MaxW=5, Kinds={0, 1, 2}, MaxOps=12, Emit=True)
+    # wide (3 levels x 5 writes) and deep (1-2 levels x 6 writes: several tombstones and versions inside one level) layouts
+    walks = 50 if quick else 400
+    gens = [("wide", dict(P=MG_P, S=MG_S, Bug="none", NL=3, MaxW=5, Kinds={0, 1, 2}, MaxOps=10, Emit=True), walks),
+            ("deep", dict(P=MG_P, S=MG_S, Bug="none", NL=2, MaxW=6, Kinds={0, 1, 2}, MaxOps=10, Emit=True), walks)]
+    scripts, glock = [], threading.Lock()
+
+    def gen(label, gc, n):
+        r = sim_scripts(run, SPECDIR, "MergeGen", "sim.cfg", cfg_text(gc, invariants=["EmitInv"]),
+                        walks=n, depth=60, seed=run.seed, label="MergeGen/simulate/" + label)
+        with glock:
+            scripts.extend(r)
     with Phase(run, "generate"):
-        scripts = sim_scripts(run, SPECDIR, "MergeGen", "sim.cfg", cfg_text(gc, invariants=["EmitInv"]),
-                              walks=(60 if quick else 600), depth=60, seed=run.seed, label="MergeGen/simulate")
+        in_parallel(*[(lambda g=g: gen(*g)) for g in gens])
+    scripts.sort(key=lambda sc: json.dumps(sc, sort_keys=True))
     with open(sf, "w") as o:
         for sc in scripts:
             o.write(json.dumps(sc) + "\n")
     env = dict(VERIF_OUT=tdir, VERIF_SEED=str(run.seed), VERIF_TIER=run.tier, VERIF_SCRIPTFILE=sf, VERIF_GP=str(MG_P), VERIF_GS=str(MG_S),
-               VERIF_P=str(MD_P), VERIF_S=str(MD_S), VERIF_LAYOUTS=str(40 if quick else 300), VERIF_OPS=str(40 if quick else 60))
+               VERIF_P=str(MD_P), VERIF_S=str(MD_S), VERIF_LAYOUTS=str(60 if quick else 300), VERIF_OPS=str(25 if quick else 60))
     with Phase(run, "driver"):
         out, info = run_go(binp, "TestVSstC33", env)
     if "DRIVER-PANIC" in out:
@@ -540,7 +633,11 @@ def run_c33(run):
         "(LevelInvariant in InternalIter.tla) before its results are decided",
         "the merging iterator skips keys invisible at the snapshot and keys shadowed by a newer visible range tombstone; all other internal keys "
         "(every kind, every version) are returned in internal-key order",
-        "calls are issued only inside the documented caller contract (as C25); bounds are given to the merging iterator and the level iterators alike",
+        "calls are issued only inside the documented caller contract (as C25); bounds are given to the merging iterator and the level iterators alike; "
+        "the same merging iterator is reused through SetBounds (modelled as a new iterator with the new bounds)",
+        "every layout is additionally scanned systematically on iterator 3/9: full forward and reverse scans, a direction switch in both orders at "
+        "(a sample of) its user keys, and a sweep of windows through SetBounds; half of the seeded layouts are 'dense' (2-4 adjacent user keys, "
+        "several overlapping tombstones and versions inside one level, read sequence number anywhere in the history)",
         "batch and memtable levels are not part of these layouts (covered at DB level by the KV engine)",
     ]
 
@@ -568,7 +665,7 @@ def run_c29(run):
                    "suffix/seqnum permitted by the preconditions; CopySpan acceptance)" % consts["MaxN"], r)
     with Phase(run, "seeded_bugs"):
         run_bug_cfgs(run, SPECDIR, "VirtGen", ["Virt_SuffixNotApplied", "Virt_VirtLowerIgnored"])
-        run_bug_cfgs(run, SPECDIR, "InternalIterGen", ["LowerExclusive", "UpperInclusive"])
+        run_bug_cfgs(run, SPECDIR, "InternalIterGen", ["LowerExclusive", "UpperInclusive", "ReuseUpperInclusive"])
     binp = vlib.build_driver("internal/verif/sstdrv", name="internal_verif_sstdrv" + DRVSUFFIX)
     tdir = vlib.scratch("verif.sst29.")
     sf = os.path.join(tdir, "scripts.jsonl")
@@ -641,9 +738,10 @@ def REGISTER(reg):
         "Tables (points of every kind with many versions per prefix, range-deletion and range-key fragments) generated by TLC simulation of "
         "InternalIterGen and by a seeded driver are written with the real RawWriter under a matrix of table formats x block/index sizes x "
         "restart intervals x compression x filter policies x value blocks x checksum kinds and read with the real point and fragment "
-        "iterators (First/Last/SeekGE/SeekLT/SeekPrefixGE/Next/Prev/NextPrefix with bounds, TrySeekUsingNext where legal); TLC decides every "
+        "iterators (First/Last/SeekGE/SeekLT/SeekPrefixGE/Next/Prev/NextPrefix with bounds, TrySeekUsingNext where legal, and the same iterator "
+        "reused through SetBounds over moving windows); TLC decides every "
         "returned entry against the sorted-list model; the model's own clauses (never outside bounds/prefix, each call's specification, "
-        "scan = filter) are checked exhaustively in a small scope with 5 seeded-bug self tests.",
+        "scan = filter, reuse = new iterator) are checked exhaustively in a small scope with 6 seeded-bug self tests.",
         C_NOTE, C_TECH, "DESIGN 6/C25", engine="sst")
 
 
@@ -660,9 +758,9 @@ def REGISTER(reg):
         "Multi-level layouts (points of every kind, range tombstones, shared sequence numbers, snapshots) generated by TLC simulation of MergeGen "
         "and by a seeded driver (per-key seqnum thresholds = arbitrary compaction histories) are materialised as real sstables; the real "
         "mergingIter+levelIter and mergingIterV2+levelIterV2 stacks are driven through First/Last/SeekGE/SeekLT/SeekPrefixGE/Next/Prev/NextPrefix "
-        "with bounds and direction switches; TLC checks each layout against the LSM level invariant and decides every returned key against "
-        "MergedVisible. The model's deletion rules (per-level mechanism rule = declarative rule; file splits irrelevant) are checked exhaustively "
-        "in a small scope with seeded-bug self tests.",
+        "with bounds, SetBounds reuse, systematic full scans and direction switches at every sampled key; TLC checks each layout against the LSM level invariant and decides every returned key against "
+        "MergedVisible. The model's deletion rules (per-level mechanism rule on fragments with several sequence numbers = declarative rule; file "
+        "splits irrelevant) are checked exhaustively in two small scopes (levels x 2 writes, one level x 3 writes) with seeded-bug self tests.",
         C_NOTE, C_TECH, "DESIGN 6/C33", engine="sst")
 
 
